@@ -920,6 +920,13 @@ def repetition_count(cfg, unit, loop):
         it = loop.iter
         if isinstance(it, ast.Call) and is_name(it.func, 'range') and len(it.args) == 1 and not it.keywords:
             return it.args[0], None
+        # ``range(a, b)`` runs b - a times (a constant start): written back as an expression
+        if isinstance(it, ast.Call) and is_name(it.func, 'range') and len(it.args) == 2 and not it.keywords \
+                and isinstance(it.args[0], ast.Constant) and isinstance(it.args[0].value, int):
+            a = it.args[0].value
+            if a == 0:
+                return it.args[1], None
+            return ast.BinOp(left=clone(it.args[1]), op=ast.Sub(), right=ast.Constant(a)), None
         return None
     if isinstance(loop, ast.While):
         t = loop.test
